@@ -249,6 +249,10 @@ func (ms MatrixSetup) MarshalYAML() (any, error) {
 
 // UnmarshalOrdered unmarshals from either []any or *ordered.MapSA.
 func (ms *MatrixSetup) UnmarshalOrdered(o any) error {
+	if o == nil {
+		// `setup: null` is how a matrix without a setup is marshalled.
+		return nil
+	}
 	if *ms == nil {
 		*ms = make(MatrixSetup)
 	}
